@@ -9,8 +9,9 @@ from _leg import Leg, THOROUGH
 import greenlet, stackscope
 from stackscope import StackSlice, extract, extract_since, extract_until
 
-leg = Leg("c04_slices", "full cross product of (outer, inner, limit) over the true stack at depth 5 (main greenlet) and over 3 nested "
-                        "greenlets; callers: plain function, running generator, running coroutine; non-trivial = outer or inner or limit given")
+leg = Leg("c04_slices", "full cross product of (outer, inner, limit) over the true stack at depth 5 (main greenlet), over 3 nested "
+                        "greenlets and over parent chains with a dead immediate parent / dead middle ancestor / never-started middle "
+                        "ancestor; callers: plain function, running generator, running coroutine; non-trivial = outer or inner or limit given")
 
 
 def truth(start):
